@@ -50,10 +50,12 @@ def run(ctx):
         plan = [(0, None), (1, None), (2, None), (3, None), (4, err_alpha)]
     if os.environ.get("VERIF_C12_PLAN"):
         plan = [(int(x.split(":")[0]), None if x.endswith(":full") else err_alpha) for x in os.environ["VERIF_C12_PLAN"].split(",")]
-    lossless.run_lossless(ctx, res, plan, ("c12",), "spans")
+    only = os.environ.get("VERIF_C12_ONLY", "")      # debugging: "escapes" runs part (c) alone
+    if only != "escapes":
+        lossless.run_lossless(ctx, res, plan, ("c12",), "spans")
     # (b) on near-valid programs: every statement skeleton with one token replaced by an arbitrary token
     from . import h_c01
-    for k, modes, depth in ([(1, ("subst",), 1)] if ctx.quick() else [(1, ("subst",), 2), (1, ("insert",), 1)]):
+    for k, modes, depth in ([] if only == "escapes" else [(1, ("subst",), 1)] if ctx.quick() else [(1, ("subst",), 2), (1, ("insert",), 1)]):
         kitp, pf = h_c01.run_prefixes(ctx, res, k, which=("violation",), modes=modes, depth=depth)
         h_c01.triage_failures(ctx, res, kitp, pf)
     structural_semantic_range(res)
@@ -62,6 +64,8 @@ def run(ctx):
     res.functions_encoded += ["oq3_parser::LexedStr::to_input", "oq3_parser::TopEntryPoint::parse (whole parser)",
                               "oq3_parser::LexedStr::intersperse_trivia", "oq3_parser::parser::Parser::{err_recover,err_and_bump,error,bump_any}",
                               "oq3_semantics::semantic_error::SemanticError::range (structural)"]
+    if only:
+        res.inconclusive.append("partial run (VERIF_C12_ONLY)")
     res.bounds["raw_tokens_full_alphabet"] = max(r for r, a in plan if a is None)
     res.bounds["raw_tokens_error_subalphabet"] = max([r for r, a in plan if a is not None] or [0])
     res.assumptions += ["raw token start offsets are char boundaries (conclusion of C14)", "rowan text ranges of nodes (trusted base)"]
